@@ -1,32 +1,36 @@
 // hgv_ref (C13): runs a REAL graph compiled from the working tree
 //
-//     replay(cond: TS<Bool>), replay(a: S), replay(b: S)
-//        -> if_then_else(cond, a, b)            (stdlib operator; publishes a REF<S>)
-//        -> [stage]                             direct | pass (the REF goes through a nested_ sub-graph)
-//                                               | inner (the consumers live inside a nested_ sub-graph)
-//        -> 1..3 counting consumer nodes        (harness static nodes with an S input; consumer 1 is
-//                                               InputValidity::Unchecked, the others use the default)
-//     record(a), record(b)                      recorder sinks on both targets
+//     replay(selector), replay(a: S), replay(b: S) [, replay(c: S)]
+//        -> if_then_else(cond, a, b)  |  if_cmp(cmp, a, b, c)      (stdlib operators; publish a REF<S>)
+//        -> [stage]        direct | pass  (the REF goes through a nested_ sub-graph)
+//                                 | inner (the consumers live inside a nested_ sub-graph)
+//        -> 1..3 counting consumer nodes   (harness static nodes with an S input; consumer 1 is
+//                                           InputValidity::Unchecked, the others use the default gate)
+//        -> record(deref)                  the stdlib recorder reading THROUGH the reference
+//     record(a), record(b) [, record(c)]   recorder sinks on the targets themselves
 //
 // in simulation, for a textual history, and prints what every consumer saw in every engine cycle.
 // One output line per input line:
 //
-//   case <id>                          -> "case <id>"          (flushes a pending history first)
-//   cfg <shape> <ncons> <stage>        -> "ok" | "bad-op"      shape: ts | tss | tsd
-//        (TS<Int>, TSS<Int>, TSD<Int,TS<Int>>)
-//   c [cond=<0|1>] [a=<d>] [b=<d>]     one engine cycle (MIN_ST + i); answered when the run happens:
+//   case <id>                               -> "case <id>"      (flushes a pending history first)
+//   cfg <shape> <ncons> <stage> [<selop>]   -> "ok" | "bad-op"
+//        shape: ts | tss | tsd   (TS<Int>, TSS<Int>, TSD<Int,TS<Int>>);  ncons 1..3
+//        stage: direct | pass | inner;   selop: ite (default) | cmp
+//   c [sel=<a|b|c>] [a=<d>] [b=<d>] [c=<d>]   one engine cycle (MIN_ST + i); answered when the run happens
+//        sel=a: cond=true / cmp=LT,  sel=b: cond=false / cmp=EQ,  sel=c: cmp=GT (cmp only)
 //        d   ts: <int>     tss: +k,-k,...      tsd: k:v,-k,...
-//        "r=<0|1> ra=<d|-> rb=<d|-> | <c0> | <c1> ..."
-//        r    the REF output of if_then_else ticked in this cycle
-//        ra   what the recorder on a (b) stored for this cycle
-//        <ci> "-" consumer i was not evaluated, else "v=<valid> m=<modified> x=<value|_> d=<delta|_>"
-//             (+ " k=<+added,-removed>" from the key accessors for tss / tsd)
-//   run                                -> "end"
-// A history is run when `run`, the next `case` or EOF is read.  Errors -> "err:<class>".
+//        "r=<0|1> ra=<d|-> rb=<d|-> [rc=<d|->] rs=<d|-> | <c0> | <c1> ..."
+//        r    the REF output of the selection operator ticked in this cycle
+//        ra   what the recorder on a (b, c) stored for this cycle;  rs the recorder through the reference
+//        <ci> "-" consumer i was not evaluated, else "v=<valid> m=<modified> x=<value|_> d=<delta_value()|_>"
+//             (+ " k=<+added,-removed[,~modified]>" from the key accessors for tss / tsd)
+//   run                                     -> "end"
+// A history is run when `run`, the next `case`/`cfg` or EOF is read.  Errors -> "err:<class>".
 #include "hgv_common.h"
 
 #include <hgraph/lib/std/std_nodes.h>
 #include <hgraph/lib/std/std_operators.h>
+#include <hgraph/lib/std/operators/comparison.h>
 #include <hgraph/lib/std/operators/control.h>
 #include <hgraph/lib/std/operators/impl/record_replay_memory_impl.h>
 #include <hgraph/lib/testing/record_replay.h>
@@ -38,6 +42,7 @@
 #include <hgraph/types/subgraph_wiring.h>
 
 #include <algorithm>
+#include <array>
 #include <map>
 #include <optional>
 
@@ -108,8 +113,6 @@ namespace
         }
         return "{" + cat(int_set_text(b.at(0), "-"), join_sorted(std::move(mod))) + "}";
     }
-
-    template <typename A> std::string seen_text(const A &ts);
 
     template <typename A>
         requires std::is_same_v<typename A::schema, STS>
@@ -204,66 +207,115 @@ namespace
         std::string shape{"ts"};
         int         ncons{1};
         std::string stage{"direct"};
+        bool        cmp{false};
+        int         targets() const { return cmp ? 3 : 2; }
+    };
+
+    struct DeltaSpec
+    {
+        std::vector<std::pair<Int, Int>> sets;  // ts: one (0, v); tss: (k, 0); tsd: (k, v)
+        std::vector<Int>                 dels;
     };
 
     struct Cycle
     {
-        std::optional<bool>        cond;
-        std::optional<std::string> a, b;
+        std::optional<int>                      sel;
+        std::array<std::optional<DeltaSpec>, 3> d;
     };
-
-    // delta token -> canonical delta Value
-    template <typename S> Value parse_delta(const std::string &tok);
-    template <> Value parse_delta<STS>(const std::string &tok) { return Value{Int{to_i(tok)}}; }
 
     std::vector<std::string> split_commas(const std::string &tok)
     {
         std::vector<std::string> out;
-        std::string cur;
+        std::string              cur;
         for (char ch : tok)
         {
             if (ch == ',') { out.push_back(cur); cur.clear(); }
             else { cur += ch; }
         }
-        if (!cur.empty()) { out.push_back(cur); }
+        out.push_back(cur);
         return out;
     }
 
-    template <> Value parse_delta<STSS>(const std::string &tok)
+    bool parse_nat(const std::string &s, Int &out)
     {
-        std::vector<Int> added, removed;
-        for (const auto &p : split_commas(tok))
+        if (s.empty() || s.size() > 9) { return false; }
+        for (char ch : s)
         {
-            if (p.size() < 2 || (p[0] != '+' && p[0] != '-')) { throw std::invalid_argument("tss delta"); }
-            (p[0] == '+' ? added : removed).push_back(Int{to_i(p.substr(1))});
+            if (ch < '0' || ch > '9') { return false; }
         }
-        return set_delta<Int>(added, removed);
+        out = Int{std::stoll(s)};
+        return true;
     }
 
-    template <> Value parse_delta<STSD>(const std::string &tok)
+    bool parse_int(const std::string &s, Int &out)
     {
-        std::map<Int, Int> modified;
-        std::vector<Int>   removed;
+        if (!s.empty() && s[0] == '-')
+        {
+            Int n{};
+            if (!parse_nat(s.substr(1), n)) { return false; }
+            out = -n;
+            return true;
+        }
+        return parse_nat(s, out);
+    }
+
+    // textual delta -> DeltaSpec, syntax by shape; false = malformed
+    bool parse_spec(const std::string &shape, const std::string &tok, DeltaSpec &out)
+    {
+        if (shape == "ts")
+        {
+            Int v{};
+            if (!parse_int(tok, v)) { return false; }
+            out.sets.emplace_back(Int{0}, v);
+            return true;
+        }
         for (const auto &p : split_commas(tok))
         {
-            if (p.empty()) { throw std::invalid_argument("tsd delta"); }
-            if (p[0] == '-') { removed.push_back(Int{to_i(p.substr(1))}); continue; }
-            auto c = p.find(':');
-            if (c == std::string::npos) { throw std::invalid_argument("tsd delta"); }
-            modified[Int{to_i(p.substr(0, c))}] = Int{to_i(p.substr(c + 1))};
+            Int k{}, v{};
+            if (shape == "tss")
+            {
+                if (p.size() < 2 || (p[0] != '+' && p[0] != '-') || !parse_nat(p.substr(1), k)) { return false; }
+                if (p[0] == '+') { out.sets.emplace_back(k, Int{0}); }
+                else { out.dels.push_back(k); }
+            }
+            else
+            {
+                if (p.size() >= 2 && p[0] == '-')
+                {
+                    if (!parse_nat(p.substr(1), k)) { return false; }
+                    out.dels.push_back(k);
+                    continue;
+                }
+                auto c = p.find(':');
+                if (c == std::string::npos || !parse_nat(p.substr(0, c), k) || !parse_int(p.substr(c + 1), v)) { return false; }
+                out.sets.emplace_back(k, v);
+            }
         }
-        return static_node_detail::build_dict_delta<Int, TS<Int>>(modified, removed);
+        return true;
+    }
+
+    template <typename S> Value make_delta(const DeltaSpec &d);
+    template <> Value make_delta<STS>(const DeltaSpec &d) { return Value{Int{d.sets.at(0).second}}; }
+    template <> Value make_delta<STSS>(const DeltaSpec &d)
+    {
+        std::vector<Int> added;
+        for (const auto &[k, v] : d.sets) { added.push_back(k); }
+        return set_delta<Int>(added, d.dels);
+    }
+    template <> Value make_delta<STSD>(const DeltaSpec &d)
+    {
+        std::map<Int, Int> modified;
+        for (const auto &[k, v] : d.sets) { modified[k] = v; }
+        return static_node_detail::build_dict_delta<Int, TS<Int>>(modified, d.dels);
     }
 
     struct Obs final : LifecycleObserver
     {
         std::map<std::int64_t, bool> ref_ticked;
-        std::map<std::int64_t, bool> seen;
         void on_after_graph_evaluation(const GraphView &graph) override
         {
             if (!graph.is_root()) { return; }
             const auto i = us(graph.evaluation_time()) - us(MIN_ST);
-            seen[i] = true;
             for (std::size_t index = 0; index < graph.node_count(); ++index)
             {
                 auto node = graph.node_at(index);
@@ -280,6 +332,9 @@ namespace
     template <typename S, int N>
     void wire_inner(Wiring &w, Port<S> deref) { nested_<HgvInner<S, N>>(w, deref); }
 
+    const char *const TARGET_KEYS[3] = {"hgv::a", "hgv::b", "hgv::c"};
+    const char *const RECORD_KEYS[3] = {"hgv::ra", "hgv::rb", "hgv::rc"};
+
     template <typename S>
     std::vector<std::string> run_history(const Cfg &cfg, const std::vector<Cycle> &cycles)
     {
@@ -287,38 +342,55 @@ namespace
         Wiring w;
         record_replay::set_config(w.global_state(),
                                   record_replay::RecordReplayConfig{.backend = std::string{record_replay::TESTING}});
-        auto cond = wire<stdlib::replay_impl, TS<Bool>>(w, Str{"hgv::cond"});
-        auto a    = wire<stdlib::replay_impl, S>(w, Str{"hgv::a"});
-        auto b    = wire<stdlib::replay_impl, S>(w, Str{"hgv::b"});
-        auto sel  = wire<stdlib::if_then_else>(w, cond, a, b);
-        if (cfg.stage == "direct") { wire_consumers<S>(w, sel.template as<S>(), cfg.ncons); }
-        else if (cfg.stage == "pass")
+        std::vector<Port<S>> tg;
+        for (int t = 0; t < cfg.targets(); ++t) { tg.push_back(wire<stdlib::replay_impl, S>(w, Str{TARGET_KEYS[t]})); }
+        auto wire_rest = [&](auto sel) {
+            if (cfg.stage == "direct") { wire_consumers<S>(w, sel.template as<S>(), cfg.ncons); }
+            else if (cfg.stage == "pass")
+            {
+                auto through = nested_<HgvRefPass<S>>(w, sel.template as<REF<S>>());
+                wire_consumers<S>(w, through.template as<S>(), cfg.ncons);
+            }
+            else
+            {
+                auto deref = sel.template as<S>();
+                if (cfg.ncons == 1) { wire_inner<S, 1>(w, deref); }
+                else if (cfg.ncons == 2) { wire_inner<S, 2>(w, deref); }
+                else { wire_inner<S, 3>(w, deref); }
+            }
+            wire<stdlib::dense_record_impl>(w, sel.template as<S>(), Str{"hgv::rs"});
+        };
+        if (cfg.cmp)
         {
-            auto through = nested_<HgvRefPass<S>>(w, sel.template as<REF<S>>());
-            wire_consumers<S>(w, through.template as<S>(), cfg.ncons);
+            auto selector = wire<stdlib::replay_impl, TS<stdlib::CmpResult>>(w, Str{"hgv::sel"});
+            wire_rest(wire<stdlib::if_cmp>(w, selector, tg[0], tg[1], tg[2]));
         }
         else
         {
-            auto deref = sel.template as<S>();
-            if (cfg.ncons == 1) { wire_inner<S, 1>(w, deref); }
-            else if (cfg.ncons == 2) { wire_inner<S, 2>(w, deref); }
-            else { wire_inner<S, 3>(w, deref); }
+            auto selector = wire<stdlib::replay_impl, TS<Bool>>(w, Str{"hgv::sel"});
+            wire_rest(wire<stdlib::if_then_else>(w, selector, tg[0], tg[1]));
         }
-        wire<stdlib::dense_record_impl>(w, a, Str{"hgv::ra"});
-        wire<stdlib::dense_record_impl>(w, b, Str{"hgv::rb"});
-        wire<stdlib::dense_record_impl>(w, sel.template as<S>(), Str{"hgv::rs"});
+        for (int t = 0; t < cfg.targets(); ++t) { wire<stdlib::dense_record_impl>(w, tg[t], Str{RECORD_KEYS[t]}); }
         GraphBuilder gb = std::move(w).finish();
 
-        std::vector<std::optional<Value>> dc, da, db;
+        std::vector<std::optional<Value>> ds;
+        std::array<std::vector<std::optional<Value>>, 3> dt;
         for (const auto &c : cycles)
         {
-            dc.push_back(c.cond.has_value() ? std::optional<Value>{Value{Bool{*c.cond}}} : std::nullopt);
-            da.push_back(c.a.has_value() ? std::optional<Value>{parse_delta<S>(*c.a)} : std::nullopt);
-            db.push_back(c.b.has_value() ? std::optional<Value>{parse_delta<S>(*c.b)} : std::nullopt);
+            if (!c.sel.has_value()) { ds.emplace_back(std::nullopt); }
+            else if (cfg.cmp)
+            {
+                const auto r = *c.sel == 0 ? stdlib::CmpResult::LT : *c.sel == 1 ? stdlib::CmpResult::EQ : stdlib::CmpResult::GT;
+                ds.emplace_back(Value{r});
+            }
+            else { ds.emplace_back(Value{Bool{*c.sel == 0}}); }
+            for (int t = 0; t < cfg.targets(); ++t)
+            {
+                dt[t].push_back(c.d[t].has_value() ? std::optional<Value>{make_delta<S>(*c.d[t])} : std::nullopt);
+            }
         }
-        testing::set_replay_deltas(gb.global_state(), "hgv::cond", dc);
-        testing::set_replay_deltas(gb.global_state(), "hgv::a", da);
-        testing::set_replay_deltas(gb.global_state(), "hgv::b", db);
+        testing::set_replay_deltas(gb.global_state(), "hgv::sel", ds);
+        for (int t = 0; t < cfg.targets(); ++t) { testing::set_replay_deltas(gb.global_state(), TARGET_KEYS[t], dt[t]); }
 
         Obs obs;
         GraphExecutorBuilder eb;
@@ -330,16 +402,19 @@ namespace
         auto               view     = executor.view();
         view.run();
 
-        auto ra = testing::get_recorded_deltas(view.graph().global_state(), "hgv::ra");
-        auto rb = testing::get_recorded_deltas(view.graph().global_state(), "hgv::rb");
+        std::array<std::vector<std::optional<Value>>, 3> rec;
+        for (int t = 0; t < cfg.targets(); ++t) { rec[t] = testing::get_recorded_deltas(view.graph().global_state(), RECORD_KEYS[t]); }
         auto rs = testing::get_recorded_deltas(view.graph().global_state(), "hgv::rs");
         std::vector<std::string> lines;
+        const char *const        names[3] = {" ra=", " rb=", " rc="};
         for (std::size_t i = 0; i < cycles.size(); ++i)
         {
             const auto  ci = static_cast<std::int64_t>(i);
             std::string s  = std::string{"r="} + (obs.ref_ticked.count(ci) && obs.ref_ticked[ci] ? "1" : "0");
-            s += " ra=" + (i < ra.size() && ra[i].has_value() ? delta_text<S>(ra[i]->view()) : std::string{"-"});
-            s += " rb=" + (i < rb.size() && rb[i].has_value() ? delta_text<S>(rb[i]->view()) : std::string{"-"});
+            for (int t = 0; t < cfg.targets(); ++t)
+            {
+                s += names[t] + (i < rec[t].size() && rec[t][i].has_value() ? delta_text<S>(rec[t][i]->view()) : std::string{"-"});
+            }
             s += " rs=" + (i < rs.size() && rs[i].has_value() ? delta_text<S>(rs[i]->view()) : std::string{"-"});
             for (int k = 0; k < cfg.ncons; ++k)
             {
@@ -367,19 +442,27 @@ int main()
     Cfg                cfg;
     std::vector<Cycle> cycles;
     bool               cfg_bad = false;
+    const bool         debug   = getenv("HGV_DEBUG") != nullptr;
 
     auto flush = [&](bool with_run_line) {
         if (cycles.empty() && !with_run_line) { return; }
         std::vector<std::string> lines;
         try
         {
-            if (cfg_bad) { throw std::invalid_argument("cfg"); }
             if (cfg.shape == "ts") { lines = run_history<STS>(cfg, cycles); }
             else if (cfg.shape == "tss") { lines = run_history<STSS>(cfg, cycles); }
             else { lines = run_history<STSD>(cfg, cycles); }
         }
-        catch (const std::invalid_argument &e) { lines.assign(cycles.size() + 1, std::string{"err:invalid-argument"}); if (getenv("HGV_DEBUG")) std::cerr << e.what() << "\n"; }
-        catch (const std::exception &e) { lines.assign(cycles.size() + 1, std::string{"err:exception"}); if (getenv("HGV_DEBUG")) std::cerr << e.what() << "\n"; }
+        catch (const std::invalid_argument &e)
+        {
+            lines.assign(cycles.size() + 1, std::string{"err:invalid-argument"});
+            if (debug) { std::cerr << e.what() << "\n"; }
+        }
+        catch (const std::exception &e)
+        {
+            lines.assign(cycles.size() + 1, std::string{"err:exception"});
+            if (debug) { std::cerr << e.what() << "\n"; }
+        }
         if (lines.size() != cycles.size() + 1) { lines.resize(cycles.size() + 1, lines.empty() ? "err:short" : lines.back()); }
         for (std::size_t i = 0; i < cycles.size(); ++i) { std::cout << lines[i] << "\n"; }
         if (with_run_line) { std::cout << lines.back() << "\n"; }
@@ -401,18 +484,20 @@ int main()
                 cfg_bad = false;
                 std::cout << line << "\n";
             }
-            else if (op == "cfg" && w.size() == 4)
+            else if (op == "cfg")
             {
                 flush(false);
                 Cfg  c;
-                bool ok = (w[1] == "ts" || w[1] == "tss" || w[1] == "tsd") &&
+                bool ok = (w.size() == 4 || w.size() == 5) && (w[1] == "ts" || w[1] == "tss" || w[1] == "tsd") &&
                           (w[2] == "1" || w[2] == "2" || w[2] == "3") &&
-                          (w[3] == "direct" || w[3] == "pass" || w[3] == "inner");
+                          (w[3] == "direct" || w[3] == "pass" || w[3] == "inner") &&
+                          (w.size() == 4 || w[4] == "ite" || w[4] == "cmp");
                 if (ok)
                 {
                     c.shape = w[1];
                     c.ncons = static_cast<int>(to_i(w[2]));
                     c.stage = w[3];
+                    c.cmp   = w.size() == 5 && w[4] == "cmp";
                     cfg     = c;
                     cfg_bad = false;
                     std::cout << "ok\n";
@@ -422,21 +507,29 @@ int main()
             else if (op == "c")
             {
                 Cycle cy;
-                bool  ok = true;
+                bool  ok = !cfg_bad;   // after a rejected cfg every cycle line is rejected too
                 for (std::size_t i = 1; i < w.size() && ok; ++i)
                 {
                     const auto eq = w[i].find('=');
                     if (eq == std::string::npos) { ok = false; break; }
                     const std::string k = w[i].substr(0, eq), v = w[i].substr(eq + 1);
-                    if (k == "cond" && (v == "0" || v == "1")) { cy.cond = v == "1"; }
-                    else if (k == "a" && !v.empty()) { cy.a = v; }
-                    else if (k == "b" && !v.empty()) { cy.b = v; }
+                    if (k == "sel" && (v == "a" || v == "b" || (v == "c" && cfg.cmp)) && !cy.sel.has_value()) { cy.sel = v[0] - 'a'; }
+                    else if ((k == "a" || k == "b" || (k == "c" && cfg.cmp)) && !cy.d[k[0] - 'a'].has_value())
+                    {
+                        DeltaSpec d;
+                        ok = parse_spec(cfg.shape, v, d);
+                        cy.d[k[0] - 'a'] = std::move(d);
+                    }
                     else { ok = false; }
                 }
                 if (!ok) { flush(false); std::cout << "bad-op\n"; }
                 else { cycles.push_back(std::move(cy)); }
             }
-            else if (op == "run") { flush(true); }
+            else if (op == "run")
+            {
+                if (cfg_bad) { flush(false); std::cout << "bad-op\n"; }
+                else { flush(true); }
+            }
             else { flush(false); std::cout << "bad-op\n"; }
         }
         catch (const std::exception &) { flush(false); std::cout << "bad-op\n"; }
